@@ -213,6 +213,7 @@ func cmdUnit(args []string) {
 		for _, k := range keys {
 			if *sweep {
 				v.sweepMode = true
+				v.sweepScope = func(key string) bool { return v.db.Funcs[key] == nil && strings.HasPrefix(strings.TrimLeft(key, "(*"), repoMod) }
 				fn := v.fnByKey[k]
 				if !strings.Contains(k, pat) || !v.inRepo2(fn) || v.db.Funcs[k] != nil || fn.Blocks == nil || fn.Synthetic != "" {
 					continue
